@@ -30,6 +30,193 @@ fn guarded<F: FnOnce() + std::panic::UnwindSafe>(f: F) -> bool {
     std::panic::catch_unwind(f).is_ok()
 }
 
+
+/// run the CLI binary in `cwd` with a watchdog; `Some(text)` if it hangs (killed after `secs`) or panics
+pub fn cli_watchdog(bin: &std::path::Path, cwd: &std::path::Path, args: &[&str], secs: u64) -> (Option<i32>, Option<String>) {
+    let mut c = std::process::Command::new(bin);
+    c.current_dir(cwd).env_remove("TXTPP_FILE").args(args).stdout(std::process::Stdio::null()).stderr(std::process::Stdio::piped());
+    let Ok(mut child) = c.spawn() else { return (None, Some("cannot start the CLI binary".to_string())) };
+    let t0 = std::time::Instant::now();
+    let mut errpipe = child.stderr.take().unwrap();
+    let reader = std::thread::spawn(move || {
+        let mut s = Vec::new();
+        let _ = std::io::Read::read_to_end(&mut errpipe, &mut s);
+        String::from_utf8_lossy(&s).to_string()
+    });
+    let mut status = None;
+    while t0.elapsed() < std::time::Duration::from_secs(secs) {
+        if let Ok(Some(st)) = child.try_wait() {
+            status = Some(st);
+            break;
+        }
+        std::thread::sleep(std::time::Duration::from_millis(20));
+    }
+    if status.is_none() {
+        let _ = child.kill();
+        let _ = child.wait();
+        let _ = reader.join();
+        return (None, Some(format!("`txtpp {}` did not return within {secs} s (hang)", args.join(" "))));
+    }
+    let err = reader.join().unwrap_or_default();
+    let st = status.unwrap();
+    if st.code() == Some(101) || err.contains("panicked at") {
+        let line = err.lines().find(|l| l.contains("panicked at")).unwrap_or("").to_string();
+        return (st.code(), Some(format!("`txtpp {}` panics: {line}", args.join(" "))));
+    }
+    (st.code(), None)
+}
+
+/// scenarios a sampling generator does not reach (seed round 11), through the CLI binary with a watchdog: the corner
+/// projects of `corner.rs`, a command that writes far more than a pipe buffer to stderr, hundreds of files with
+/// failing ones among them (an early error while hundreds of results are still to be delivered)
+fn big_scenarios(rep: &mut Report, bin: &std::path::Path, dir: &std::path::Path) {
+    let flags: [&[&str]; 4] = [&["-q", "-j", "2", "."], &["-N", "-q", "-j", "4", "."], &["verify", "-q", "-j", "1", "."], &["clean", "-q", "."]];
+    for (label, p, _) in crate::corner::corner_projects() {
+        for f in flags.iter() {
+            let d = dir.join("corner");
+            materialize(&p, &d);
+            rep.count("big:corner-scenario-runs");
+            if let (_, Some(what)) = cli_watchdog(bin, &d, f, 30) {
+                rep.violation("oracle", &format!("C18: corner scenario `{label}`: {what}"), &replay_body(&snapshot(&d).0, &RunCfg::build_all(), &p.cmds, &format!("# C18 corner scenario {label}: {what}\n")));
+            }
+        }
+    }
+    // a command that fills the stderr pipe before it writes its result
+    {
+        let d = dir.join("stderr");
+        let _ = std::fs::remove_dir_all(&d);
+        std::fs::create_dir_all(&d).unwrap();
+        std::fs::write(d.join("gen.txt.txtpp"), "before\n# TXTPP#run head -c 400000 /dev/zero | tr '\\0' w >&2; echo result\nafter\n").unwrap();
+        for f in [&["-q", "-j", "1", "."][..], &["-N", "-q", "."][..], &["verify", "-q", "."][..]] {
+            rep.count("big:stderr-heavy-command-runs");
+            let (code, what) = cli_watchdog(bin, &d, f, 30);
+            if let Some(what) = what {
+                rep.violation("oracle", &format!("C18: a command writing 400 KB to stderr: {what}"), &format!("# C18: {what}\n# source gen.txt.txtpp: `# TXTPP#run head -c 400000 /dev/zero | tr '\\0' w >&2; echo result`\n"));
+            } else if code != Some(0) {
+                rep.notes.push(format!("stderr-heavy command: exit {:?} with {:?}", code, f));
+            }
+        }
+    }
+    many_files_scenario(rep, bin, dir);
+    non_utf8_names_scenario(rep, bin, dir, "C18");
+}
+
+/// hundreds of files, every 7th failing: the error arrives while hundreds of tasks are outstanding; the run must end
+/// (non-zero) under every thread count
+pub fn many_files_scenario(rep: &mut Report, bin: &std::path::Path, dir: &std::path::Path) {
+    {
+        let d = dir.join("many");
+        let _ = std::fs::remove_dir_all(&d);
+        std::fs::create_dir_all(d.join("pages")).unwrap();
+        std::fs::write(d.join("tpl.html.txtpp"), "<header>\n").unwrap();
+        for i in 0..700 {
+            let body = if i % 7 == 3 { format!("page {i}\nTXTPP#include ../missing_{i}.html\n") } else { format!("page {i}\nTXTPP#include ../tpl.html\n") };
+            std::fs::write(d.join(format!("pages/p{i:03}.html.txtpp")), body).unwrap();
+        }
+        for f in [&["-q", "-r", "-j", "4", "."][..], &["-N", "-q", "-r", "-j", "16", "."][..], &["verify", "-q", "-r", "-j", "0", "."][..], &["-q", "-r", "-j", "1", "pages"][..]] {
+            rep.count("big:many-files-with-errors-runs");
+            let (code, what) = cli_watchdog(bin, &d, f, 60);
+            if let Some(what) = what {
+                rep.violation("oracle", &format!("C03/C18: 700 sources, 100 of them failing: {what}"), &format!("# C18: {what}\n# 700 files pages/pNNN.html.txtpp including ../tpl.html (every 7th includes a missing file), flags {:?}\n", f));
+            } else if code == Some(0) {
+                rep.violation("oracle", &format!("C04: 700 sources, 100 of them failing: `txtpp {}` exits 0", f.join(" ")), &format!("# 700 files, every 7th includes a missing file, flags {:?}: exit 0\n", f));
+            }
+        }
+    }
+}
+
+/// file names that are not UTF-8 (Latin-1 bytes), in both txtpp name shapes, with a decoy at the lossy spelling of the
+/// output name: every source in a scanned directory is processed, the output is the byte-exact name, the decoy is
+/// never touched; clean removes exactly the outputs
+pub fn non_utf8_names_scenario(rep: &mut Report, bin: &std::path::Path, dir: &std::path::Path, property: &str) {
+    use std::os::unix::ffi::OsStrExt;
+    let os = |b: &[u8]| std::ffi::OsStr::from_bytes(b).to_os_string();
+    let d = dir.join("nonutf8");
+    let _ = std::fs::remove_dir_all(&d);
+    std::fs::create_dir_all(d.join("menu")).unwrap();
+    let m = d.join("menu");
+    std::fs::write(m.join(os(b"caf\xe9.txt.txtpp")), "plat du jour\n").unwrap();
+    std::fs::write(m.join(os(b"cr\xe8me.txtpp.md")), "dessert\nTXTPP#include plain.txt\n").unwrap();
+    std::fs::write(m.join("plain.txt"), "plain\n").unwrap();
+    std::fs::write(m.join("cr\u{fffd}me.md"), "decoy\n").unwrap();
+    std::fs::write(m.join("caf\u{fffd}.txt"), "decoy\n").unwrap();
+    let outs: [(Vec<u8>, &str); 2] = [(b"caf\xe9.txt".to_vec(), "plat du jour\n"), (b"cr\xe8me.md".to_vec(), "dessert\nplain\n\n")];
+    for flags in [&["-q", "-r", "."][..], &["-q", "menu"][..], &["-N", "-q", "-r", "."][..]] {
+        for (o, _) in &outs {
+            let _ = std::fs::remove_file(m.join(os(o)));
+        }
+        rep.count("big:non-utf8-file-name-runs");
+        let (code, what) = cli_watchdog(bin, &d, flags, 30);
+        let mut problems = vec![];
+        if let Some(w) = what {
+            problems.push(w);
+        }
+        if code != Some(0) {
+            problems.push(format!("exit status {code:?}"));
+        }
+        for (o, want) in &outs {
+            match std::fs::read(m.join(os(o))) {
+                Ok(b) if b == want.as_bytes() => {}
+                Ok(b) => problems.push(format!("output {:?} holds {:?}", String::from_utf8_lossy(o), String::from_utf8_lossy(&b))),
+                Err(_) => problems.push(format!("output {:?} (byte-exact name) was not created: the source was not processed", String::from_utf8_lossy(o))),
+            }
+        }
+        for decoy in ["cr\u{fffd}me.md", "caf\u{fffd}.txt"] {
+            if std::fs::read(m.join(decoy)).ok().as_deref() != Some(b"decoy\n".as_ref()) {
+                problems.push(format!("the unrelated file {decoy:?} was changed or removed"));
+            }
+        }
+        if !problems.is_empty() {
+            let what = format!("{property}: sources with non-UTF-8 file names (menu/caf\\xe9.txt.txtpp, menu/cr\\xe8me.txtpp.md), `txtpp {}`: {}", flags.join(" "), problems.join("; "));
+            rep.violation("oracle", &what, &format!("# {what}\n"));
+        }
+    }
+    // clean removes the outputs and nothing else
+    let (_, what) = cli_watchdog(bin, &d, &["clean", "-q", "-r", "."], 30);
+    let mut problems = vec![];
+    if let Some(w) = what {
+        problems.push(w);
+    }
+    for (o, _) in &outs {
+        if m.join(os(o)).exists() {
+            problems.push(format!("clean left the output {:?}", String::from_utf8_lossy(o)));
+        }
+    }
+    for keep in ["cr\u{fffd}me.md", "caf\u{fffd}.txt", "plain.txt"] {
+        if !m.join(keep).exists() {
+            problems.push(format!("clean removed {keep:?}"));
+        }
+    }
+    if !problems.is_empty() {
+        let what = format!("{property}: non-UTF-8 file names, `txtpp clean -r .`: {}", problems.join("; "));
+        rep.violation("oracle", &what, &format!("# {what}\n"));
+    }
+}
+
+/// job `big` (one shard): the scenarios above that belong to the property named by `--property`, through the CLI binary
+pub fn run_big(args: &Args) -> Report {
+    let property = args.property.clone();
+    let mut rep = Report::new(&property, "M11-big", &args.replay_dir);
+    rep.rule = "explicit scenarios a sampling generator of small projects does not reach, through the CLI binary with a watchdog: 700 sources with 100 failing ones among them (every thread count; must end, non-zero), sources whose file names are not UTF-8 in both txtpp name shapes with decoys at the lossy spelling (processed, byte-exact output name, decoys untouched, clean removes exactly the outputs), the corner projects of corner.rs (no hang, no panic)".to_string();
+    let bin = args.bin.clone().unwrap_or_default();
+    let dir = args.work.join(format!("big-{}-{}", property, std::process::id()));
+    let _ = std::fs::remove_dir_all(&dir);
+    std::fs::create_dir_all(&dir).unwrap();
+    if !bin.exists() {
+        rep.notes.push("CLI binary not built: nothing run".to_string());
+        return rep;
+    }
+    if property == "C03" || property == "C04" {
+        many_files_scenario(&mut rep, &bin, &dir);
+    }
+    if property == "C03" || property == "C10" || property == "C11" {
+        non_utf8_names_scenario(&mut rep, &bin, &dir, &property);
+    }
+    rep.evaluations = rep.dist.values().sum::<u64>();
+    let _ = std::fs::remove_dir_all(&dir);
+    rep
+}
+
 pub fn run_c18(args: &Args) -> Report {
     let mut rep = Report::new("C18", "M10", &args.replay_dir);
     let bin = args.bin.clone().unwrap_or_default();
@@ -470,6 +657,9 @@ pub fn run_c18(args: &Args) -> Report {
         if i == 0 {
             rep.sample(format!("{} with mutations [{}] => {}", cfg.describe(), kind, obs.verdict));
         }
+    }
+    if args.shard == 0 && bin.exists() {
+        big_scenarios(&mut rep, &bin, &dir);
     }
     let _ = std::fs::remove_dir_all(&dir);
     rep
